@@ -703,3 +703,71 @@ M("C03-perform-changes-worker-state", "C03", "R3.4", TK,
   """                for worker in self.allocated_worker_list:
                     worker.state = worker.state
                     work_amount_progress = work_amount_progress + worker.get_work_amount_skill_progress(self.name, seed=seed)""")
+
+# ---------------------------------------------------------------------------------------- C06
+M("C06-ready-before-finish", "C06", "R6.1", PJ,
+  """        self.workflow.check_state(self.time, BaseTaskState.FINISHED)
+        self.product.check_state()
+        self.product.check_removing_placed_workplace()
+        self.workflow.check_state(self.time, BaseTaskState.READY)
+        self.product.check_state()""",
+  """        self.workflow.check_state(self.time, BaseTaskState.READY)
+        self.product.check_state()
+        self.workflow.check_state(self.time, BaseTaskState.FINISHED)
+        self.product.check_state()
+        self.product.check_removing_placed_workplace()""")
+M("C06-allocator-only-ready", "C06", "R6.2", PJ,
+  """ready_and_working_task_list = list(filter(lambda task: task.state == BaseTaskState.READY or task.state == BaseTaskState.WORKING, self.workflow.task_list))""",
+  """ready_and_working_task_list = list(filter(lambda task: task.state == BaseTaskState.READY, self.workflow.task_list))""")
+M("C06-break-after-first-worker", "C06", "R6.3", PJ,
+  """                            worker.assigned_task_list.append(task)
+                            free_worker_list = [w for w in free_worker_list if w.ID != worker.ID]
+""",
+  """                            worker.assigned_task_list.append(task)
+                            free_worker_list = [w for w in free_worker_list if w.ID != worker.ID]
+                            break
+""")
+M("C06-auto-tasks-need-worker", "C06", "R6.2", WF,
+  """        target_task_set.update(ready_auto_task_without_component_set)
+""", "")
+M("C06-fixpoint-removed", "C06", "R6.4", WF,
+  """            if not newly_finished:
+                break""",
+  """            break""")
+M("C06-finish-check-only-when-working", "C06", "R6.1", PJ,
+  """        self.workflow.check_state(self.time, BaseTaskState.FINISHED)
+        self.product.check_state()
+        self.product.check_removing_placed_workplace()""",
+  """        if self.time not in self.absence_time_list:
+            self.workflow.check_state(self.time, BaseTaskState.FINISHED)
+        self.product.check_state()
+        self.product.check_removing_placed_workplace()""")
+M("C06-facility-loop-breaks", "C06", "R6.3", PJ,
+  """                                free_worker_list = [w for w in free_worker_list if w.ID != worker.ID]
+                                break
+""",
+  """                                free_worker_list = [w for w in free_worker_list if w.ID != worker.ID]
+                                break
+                            if len(task.allocated_facility_list) > 0:
+                                break
+""")
+M("C06-pert-after-allocation", "C06", "R6.1", PJ,
+  """        self.workflow.update_PERT_data(self.time)
+""", "",
+  PJ,
+  """            self.workflow.check_state(self.time, BaseTaskState.WORKING)
+            self.product.check_state()
+            if working:
+                cost_this_time""",
+  """            self.workflow.check_state(self.time, BaseTaskState.WORKING)
+            self.product.check_state()
+            self.workflow.update_PERT_data(self.time)
+            if working:
+                cost_this_time""")
+M("C06-task-loop-returns", "C06", "R6.3", PJ,
+  """            if not task.auto_task:
+                if task.need_facility:""",
+  """            if len(free_worker_list) == 0:
+                return
+            if not task.auto_task:
+                if task.need_facility:""")
